@@ -439,6 +439,9 @@ def gen_schema(rng, depth=2, width=4, families=None, lists_of_cfg=True, ctypes=T
                 d = normalised_default(rng, f, env)
                 if d is not None:
                     f["params"]["default"] = d
+                    if f["family"] == "dict" and isinstance(d, dict) and d and all(isinstance(k, str) for k in d) and rng.random() < 0.3:
+                        # the same default written as a sequence of pairs (dict() takes it, so does the field)
+                        f["params"]["default"] = [[k, v] for k, v in d.items()]
             node["fields"].append(f)
     return node
 
